@@ -54,6 +54,7 @@ fn spawn_watchdog() {
 
 pub fn main_loop<F: FnMut(&[i128]) -> Vec<i128>>(mut f: F) {
     std::panic::set_hook(Box::new(|_| {}));
+    install_observers();
     spawn_watchdog();
     let stdin = std::io::stdin();
     let stdout = std::io::stdout();
@@ -343,4 +344,74 @@ impl tower::Service<i128> for GatedInner {
             }
         })
     }
+}
+
+
+// ---------------------------------------------------------------------------------------------
+// Observers: the harness builds every crate with its `metrics` and `tracing` features, and installs
+// a process-wide tracing subscriber and a metrics recorder that accept everything, so that the code
+// inside the crates' `#[cfg(feature = "metrics")]` / `#[cfg(feature = "tracing")]` blocks is compiled
+// AND executed (field and label expressions are evaluated, values are formatted) in every
+// correspondence run.  Neither observer has any effect on a trace.  A driver that wants a recorder of
+// its own (c11) installs it before `main_loop`; the second installation then fails silently.
+// `VERIF_NO_OBSERVERS=1` switches both off (the blocks are then compiled but their macros are inert).
+
+struct FieldSink(usize);
+impl tracing::field::Visit for FieldSink {
+    fn record_debug(&mut self, _f: &tracing::field::Field, v: &dyn std::fmt::Debug) {
+        use std::fmt::Write as _;
+        let mut s = String::new();
+        let _ = write!(s, "{:?}", v);
+        self.0 += s.len();
+    }
+}
+struct AcceptAll;
+impl tracing::Subscriber for AcceptAll {
+    fn enabled(&self, _: &tracing::Metadata<'_>) -> bool {
+        true
+    }
+    fn new_span(&self, a: &tracing::span::Attributes<'_>) -> tracing::span::Id {
+        a.record(&mut FieldSink(0));
+        tracing::span::Id::from_u64(1)
+    }
+    fn record(&self, _: &tracing::span::Id, v: &tracing::span::Record<'_>) {
+        v.record(&mut FieldSink(0));
+    }
+    fn record_follows_from(&self, _: &tracing::span::Id, _: &tracing::span::Id) {}
+    fn event(&self, e: &tracing::Event<'_>) {
+        e.record(&mut FieldSink(0));
+        OBSERVED_EVENTS.fetch_add(1, Ordering::Relaxed);
+    }
+    fn enter(&self, _: &tracing::span::Id) {}
+    fn exit(&self, _: &tracing::span::Id) {}
+}
+/// number of tracing events + metric registrations seen by the observers (diagnostic only)
+pub static OBSERVED_EVENTS: std::sync::atomic::AtomicU64 = std::sync::atomic::AtomicU64::new(0);
+struct CountingRecorder;
+impl metrics::Recorder for CountingRecorder {
+    fn describe_counter(&self, _: metrics::KeyName, _: Option<metrics::Unit>, _: metrics::SharedString) {}
+    fn describe_gauge(&self, _: metrics::KeyName, _: Option<metrics::Unit>, _: metrics::SharedString) {}
+    fn describe_histogram(&self, _: metrics::KeyName, _: Option<metrics::Unit>, _: metrics::SharedString) {}
+    fn register_counter(&self, k: &metrics::Key, _: &metrics::Metadata<'_>) -> metrics::Counter {
+        let _ = k.labels().count();
+        OBSERVED_EVENTS.fetch_add(1, Ordering::Relaxed);
+        metrics::Counter::noop()
+    }
+    fn register_gauge(&self, k: &metrics::Key, _: &metrics::Metadata<'_>) -> metrics::Gauge {
+        let _ = k.labels().count();
+        OBSERVED_EVENTS.fetch_add(1, Ordering::Relaxed);
+        metrics::Gauge::noop()
+    }
+    fn register_histogram(&self, k: &metrics::Key, _: &metrics::Metadata<'_>) -> metrics::Histogram {
+        let _ = k.labels().count();
+        OBSERVED_EVENTS.fetch_add(1, Ordering::Relaxed);
+        metrics::Histogram::noop()
+    }
+}
+pub fn install_observers() {
+    if std::env::var_os("VERIF_NO_OBSERVERS").is_some() {
+        return;
+    }
+    let _ = tracing::subscriber::set_global_default(AcceptAll);
+    let _ = metrics::set_global_recorder(CountingRecorder);
 }
